@@ -63,6 +63,6 @@ extern long vh_syslog_calls;
 /* ---------- misc ---------- */
 uint64_t vh_hash(const void *p, size_t n);
 void vh_fill(uint8_t *p, size_t n, int pattern);   /* content alphabet */
-enum { PAT_RAMP = 0, PAT_IMPULSE_LAST = 1, PAT_ZERO = 2, PAT_ONES = 3, PAT_IMPULSE_FIRST = 4, PAT_N = 5 };
+enum { PAT_RAMP = 0, PAT_IMPULSE_LAST = 1, PAT_ZERO = 2, PAT_ONES = 3, PAT_IMPULSE_FIRST = 4, PAT_MAGIC = 5, PAT_N = 6 };
 extern const char *vh_pat_name[PAT_N];
 #endif
